@@ -1,4 +1,5 @@
 from rules import shared as S
+from rules import late as L
 
 DOC = {
     'explanation': 'C05 structural clauses: abort path completeness/order, leak latch, allocation recording, poison on partial failure, poisoned/aborted transactions cannot publish, Drop behaviour, savepoint bookkeeping symmetry',
@@ -34,3 +35,4 @@ def rules(ctx):
     S.round5_rules(ctx)
     S.handover_rules(ctx)
     S.round6_rules(ctx)
+    L.retain_poison_report_rules(ctx)
